@@ -38,6 +38,12 @@ fn run(mode: &str, opts: &util::Opts) -> Result<(), String> {
 }
 
 fn main() -> ExitCode {
+    // testutils' TestBackend owns one tokio runtime per loaded store; with the
+    // default of one worker per CPU every reload spawns a thread pool.
+    if std::env::var_os("TOKIO_WORKER_THREADS").is_none() {
+        // SAFETY: single-threaded at this point
+        unsafe { std::env::set_var("TOKIO_WORKER_THREADS", "1") };
+    }
     let args: Vec<String> = std::env::args().collect();
     if args.len() < 2 {
         eprintln!("usage: index <mode> [--key value]...");
